@@ -156,11 +156,12 @@ def run(ck):
         else:
             ls = [rng.uniform(0.0, 5) for _ in ps]                            # arbitrary non-negative
         des = [(ps[-1] * rng.uniform(0.2, 0.9), ls[-1] * 1.2), (ps[0] * 0.5, ls[0] * 1.5)] if rng.random() < 0.5 else []
-        data = pd.DataFrame({"pressure": ps + [d[0] for d in des], "loading": ls + [d[1] for d in des]})
+        origin = rng.random() < 0.25          # a measured origin (0, 0) in front of the adsorption data
+        data = pd.DataFrame({"pressure": ([0.0] if origin else []) + ps + [d[0] for d in des], "loading": ([0.0] if origin else []) + ls + [d[1] for d in des]})
         iso = pg.PointIsotherm(isotherm_data=data, pressure_key="pressure", loading_key="loading", material="pgv_m", adsorbate="N2",
                                temperature=77.355, pressure_mode="absolute", pressure_unit="bar", loading_basis="molar",
                                loading_unit="mmol", material_basis="mass", material_unit="g",
-                               branch=[0] * len(ps) + [1] * len(des))
+                               branch=[0] * (len(ps) + (1 if origin else 0)) + [1] * len(des))
         qs = [ps[0] * 0.3, ps[0], ps[-1]] + [rng.uniform(ps[0], ps[-1]) for _ in range(3)] + [rng.choice(ps)]
         for q in qs:
             k = sum(1 for p in ps if p < q)
@@ -174,7 +175,9 @@ def run(ck):
                 lq = fl[j] + (fl[j + 1] - fl[j]) / (fp[j + 1] - fp[j]) * (fq - fp[j])
             logs = [frac(math.log(ps[t + 1] / ps[t])) for t in range(len(ps) - 1)]
             lg = frac(math.log(q / ps[k - 1])) if k > 0 else Fr(0)
-            reqs.append("sp [%s] [%s] [%s] %s %s %s" % (";".join(map(qstr, fp)), ";".join(map(qstr, fl)), ";".join(map(qstr, logs)) if logs else "",
+            if origin:
+                fp, fl = [Fr(0)] + fp, [Fr(0)] + fl
+            reqs.append("%s [%s] [%s] [%s] %s %s %s" % ("spd" if origin or rng.random() < 0.3 else "sp", ";".join(map(qstr, fp)), ";".join(map(qstr, fl)), ";".join(map(qstr, logs)) if logs else "",
                                                          qstr(fq), qstr(lq), qstr(lg)))
             ctx.append((iso, ps, ls, q, k, des))
     try:
